@@ -24,7 +24,8 @@ PROFILES = ["debug", "release"]
 RULE = ("all 32 combinations of {NLA, restricted admin, blank creds, auto logon, password | NT hash} x credential classes "
         "{empty, ASCII, Latin-1, CJK, non-BMP, long (300 code points)} against an honest scripted server (TLS with the fixture "
         "certificate, CredSSP/NTLMv2 with UNICODE, MCS/GCC/licence up to the Client Info PDU), plus: CHALLENGE without the UNICODE "
-        "flag (OEM strings), NLA offered but SSL selected, server version RDP4 (no extended info) / RDP5+, both join orders, a password "
+        "flag (OEM strings), NLA offered but SSL selected, server version RDP4 (no extended info) / RDP5+, both join orders, I/O channel ids "
+        "announced by the server in {1003, 1005, 1007, 1002, 2000, 0x8000, 65535, 1} (thorough: random), a password "
         "supplied TOGETHER with an NT hash, an NT hash that is / is not MD4 of the password, passwords of 1..2 code units (search "
         "skipped), a Client Info beyond the TPKT length (refused), check_certificate with the untrusted / trusted fixture "
         "certificate, a server that does not prove the session key (credentials never sent), a refused negotiation.  Observation = "
@@ -50,6 +51,7 @@ ASSUMPTIONS = ["the literal statement `the password bytes occur nowhere else` ca
                "the two channel joins are emitted in HashMap order: the harness repeats the run until the order named in the case line comes up"]
 
 UID = 1004
+IO_IDS = [1003, 1003, 1005, 1007, 1002, 2000, 0x8000, 65535, 1]     # I/O channel ids the scripted server announces (never the user id)
 NEG_TOKEN = bytes.fromhex("4e544c4d53535000010000003582086000000000000000000000000000000000")
 
 def cps(s): return ".".join("%x" % ord(c) for c in s) or "-"
@@ -74,11 +76,11 @@ def cred(rng, cls, n=None):
 # ------------------------------------------------------------------ a case
 class Case:
     def __init__(self, rng, nla=1, ram=0, blank=0, auto=0, check=0, ident="0", jo="g", name="rdp-rs", dom="", user="", pw="", nthash=None,
-                 selected=None, version=0x00080004, flags=None, variant="honest"):
+                 selected=None, version=0x00080004, flags=None, variant="honest", io=1003):
         self.nla, self.ram, self.blank, self.auto, self.check, self.ident, self.jo = nla, ram, blank, auto, check, ident, jo
         self.name, self.dom, self.user, self.pw, self.nthash = name, dom, user, pw, nthash
         self.selected = (2 if nla else 1) if selected is None else selected
-        self.version, self.variant = version, variant
+        self.version, self.variant, self.io = version, variant, io
         self.flags = (nlmp.CLIENT_FLAGS | nlmp.NEG_VERSION) if flags is None else flags
         self.nonce, self.key = rbytes(rng, 8), rbytes(rng, 16)
         cert = 0 if ident == "n" else int(ident)
@@ -92,7 +94,11 @@ class Case:
             s2c = nlmp.session(self.key)[1]
             proof = s2c.seal(credssp.le_add(self.pubkey, 2 if variant == "no-proof" else 1))
             groups += [[credssp.ts_request(nego=self.chal)], [credssp.ts_request(pub_key_auth=proof)], []]
-        conv = rdpconn.conversation(uid=UID, selected=self.selected, order=jo, version=version)[1:]
+        # the I/O channel id is the server's choice (MCSChannelId of the server network data): joins and licence follow it
+        chans = [io, UID] if jo == "g" else [UID, io]
+        conv = [rdpconn.mcs_connect_response_frame(rdpconn.gcc_ccr(rdpconn.sc_core(version) + rdpconn.sc_security() + rdpconn.sc_net(io=io))),
+                rdpconn.attach_frame(uid=UID), rdpconn.join_frame(uid=UID, chan=chans[0]), rdpconn.join_frame(uid=UID, chan=chans[1]),
+                rdpconn.license_frame(uid=UID, chan=io)]
         groups += [[conv[0]], [], [conv[1]], [conv[2]], [conv[3]], [conv[4]]]
         self.groups = groups
     def line(self):
@@ -102,7 +108,7 @@ class Case:
             self.nthash.hex() if self.nthash is not None else "-", cps(self.user.upper()), (self.nonce + self.key).hex(), self.pubkey.hex(),
             hx(self.cc), script)
     def expect(self):
-        return dict(variant=self.variant, selected=self.selected, version=self.version, flags=self.flags, chal=self.chal.hex())
+        return dict(variant=self.variant, selected=self.selected, version=self.version, flags=self.flags, chal=self.chal.hex(), io=self.io)
 
 def gen_cases(tier, rng):
     quick = tier == "quick"
@@ -124,7 +130,8 @@ def gen_cases(tier, rng):
                 if k % 4 != 0: pw = ""
             k += 1
             add(Case(rng, nla=nla, ram=ram, blank=blank, auto=auto, jo="gu"[k % 2], dom=dom, user=user, pw=pw, nthash=nthash,
-                     version=[0x00080004, 0x00080001][(k // 2) % 2], name=["rdp-rs", "mstsc-rs", "клиент", "c\U0001f600"][k % 4]))
+                     version=[0x00080004, 0x00080001][(k // 2) % 2], name=["rdp-rs", "mstsc-rs", "клиент", "c\U0001f600"][k % 4],
+                     io=IO_IDS[k % len(IO_IDS)]))
     # CHALLENGE without UNICODE (OEM strings in TSPasswordCreds and in the AUTHENTICATE), with / without VERSION
     for bits in range(8):
         ram, blank, hashmode = bits & 1, (bits >> 1) & 1, (bits >> 2) & 1
@@ -169,7 +176,8 @@ def gen_cases(tier, rng):
                      dom=cred(rng, rng.choice(CLASSES[:5])), user=cred(rng, rng.choice(CLASSES[:5])), pw=pw if (not hashmode or rng.random() < 0.3) else "",
                      nthash=(nlmp.nt_hash(pw) if rng.random() < 0.5 else rbytes(rng, 16)) if hashmode else None,
                      version=rng.choice([0x00080004, 0x00080001]), name=cred(rng, rng.choice(CLASSES[1:5])),
-                     flags=rng.choice([None, None, nlmp.CLIENT_FLAGS, nlmp.CLIENT_FLAGS & ~nlmp.NEG_UNICODE])))
+                     flags=rng.choice([None, None, nlmp.CLIENT_FLAGS, nlmp.CLIENT_FLAGS & ~nlmp.NEG_UNICODE]),
+                     io=rng.choice(IO_IDS + [rng.choice([x for x in range(1, 65536) if x != UID])])))
     return cases
 
 # ------------------------------------------------------------------ the oracle
@@ -404,6 +412,6 @@ def example_cases():
     import random
     r = random.Random(1717)
     a = Case(r, nla=1, ram=0, blank=0, auto=1, jo="g", dom="域", user="Usér", pw="pä\U0001F600w0rd", name="rdp-rs")
-    b = Case(r, nla=1, ram=1, blank=0, auto=0, jo="u", dom="DOM", user="admin", pw="", nthash=nlmp.nt_hash("s3crét"), name="rdp-rs", version=0x00080001)
+    b = Case(r, nla=1, ram=1, blank=0, auto=0, jo="u", dom="DOM", user="admin", pw="", nthash=nlmp.nt_hash("s3crét"), name="rdp-rs", version=0x00080001, io=1007)
     return [a, b]
 from ties import of as _tie_of; TIE_LAYOUTS, TIE_PINS, TIE_ENUMS = _tie_of("C17")   # static-tie lemmas (coq/Gen/Tie) this property depends on
